@@ -19,6 +19,8 @@ def observe(R, cases, cfgs, faults_every=0):
     inp = []
     for i, c in enumerate(cases):
         d = dict(id=c["id"], src=c["src"])
+        if c.get("only") is not None:
+            d["only"] = c["only"]
         if faults_every and i % faults_every == 0:
             d["faults"] = True
         inp.append(d)
